@@ -419,14 +419,45 @@ def run(ck):
 
     # ---------------- R8: the internal rethrow marker cannot be caught by accident ----------------
     ck.rule("C11-R8", "I type-level",
-            "Private::InternalRethrow -- what a rejection continuation throws to pass the rejection on (Async::Throw) -- is not derived from "
-            "anything: a `catch (const std::exception&)` (or any other base) written round a user continuation cannot swallow it, so the "
-            "derived promise is rejected by the one handler that is meant to see it", 1)
+            "Private::InternalRethrow -- what a rejection continuation throws to pass the rejection on (Async::Throw) -- cannot be caught "
+            "by accident: it has no base class, or none that a handler in the promise code names (`catch (const std::exception&)` round a "
+            "user continuation would swallow it, and the derived promise would never be rejected)", 1)
     ir = prog.cls("Pistache::Async::Private::InternalRethrow")
     ck.require(ir is not None, "Private::InternalRethrow not found")
     bases_ = [b_.get("name") for b_ in ir.get("bases", []) if b_.get("name")]
-    ck.ob("C11-R8", "InternalRethrow/no-base-class", not bases_, "%s:%s" % (ir.get("file"), ir.get("line")), "",
-          "no base class" if not bases_ else "InternalRethrow derives from %s: a handler for that base placed round a continuation swallows the forwarded rejection" % bases_)
+    # a base class alone changes nothing; it does when some handler in the promise code catches that base (or one of *its* bases)
+    # other than by `catch (...)`, which the code has always had behind the InternalRethrow handler
+    def ancestors(n_, depth=0):
+        out_ = {strip_tmpl(n_)}
+        try:
+            c_ = prog.cls(n_)
+        except Exception:
+            c_ = None       # a class of the standard library: not analysed
+        if c_ is not None and depth < 4:
+            for b_ in c_.get("bases", []):
+                if b_.get("name"):
+                    out_ |= ancestors(b_["name"], depth + 1)
+        return out_
+    anc = set()
+    for b_ in bases_:
+        anc |= ancestors(b_)
+    if any(x_.startswith("std::") for x_ in anc):
+        anc |= {"std::exception"}       # every standard exception class derives from it (the standard headers are not analysed as classes)
+    swallowers = []
+    if anc:
+        for g_ in prog.funcs.values():
+            if not g_.blocks or not g_.file.endswith("/pistache/async.h"):
+                continue
+            for hb in g_.blocks.values():
+                if hb.label and hb.label.get("k") == "catch":
+                    ty_ = strip_tmpl((hb.label.get("type") or "").replace("const ", "").replace("&", "").strip())
+                    if ty_ in anc:
+                        swallowers.append((g_, hb))
+    ck.ob("C11-R8", "InternalRethrow/not-caught-through-a-base", not swallowers, (("%s:%s" % (swallowers[0][0].file, swallowers[0][1].label.get("l"))) if swallowers else "%s:%s" % (ir.get("file"), ir.get("line"))),
+          (swallowers[0][0] if swallowers else ""),
+          ("no base class" if not bases_ else "derives from %s, which no handler in the promise code catches" % bases_) if not swallowers else
+          "InternalRethrow derives from %s and %s has a handler for %s: the rejection a continuation passes on with Async::Throw is caught there and "
+          "the derived promise is never rejected" % (bases_, swallowers[0][0].name, swallowers[0][1].label.get("type")))
 
     # ---------------- R9: a promise is marked settled when its outcome is in place ----------------
     ck.rule("C11-R9", "C ordering (value before state)",
